@@ -1296,6 +1296,12 @@ def evidence_extra(total):
 
 
 def gen_cases(run):
+    # directed: one shrunk configuration + request per open known finding, so that each of them is reproduced in every run
+    # whatever the load of the machine (collected with VERIF_DUMP_KNOWN_CASES from a random run)
+    import json as _json
+    with open(os.path.join(os.path.dirname(os.path.abspath(__file__)), 'c14_directed.json')) as f:
+        for c in _json.load(f):
+            yield c
     n = run.pick(700, 12000)
     for i in range(n):
         yield {'i': i}
